@@ -109,6 +109,11 @@ def random_session(rng, big=False):
                 script.append(("plotly", 1, i))
             if len(filled) == 2 and rng.random() < 0.5:
                 script.append(("kl", 2, 3))
+                script.append(("plotly", 2, 3))
+            if rng.random() < 0.3:
+                script.append(("plotly", i, 0))          # a filled id as the reference of the view
+    if filled and rng.random() < 0.3:
+        script += [("reset", 0, 1), ("plotly", 1, sorted(filled)[0])]      # reference counts all zero: every node must still be listed
     return cfgp, script
 
 
